@@ -20,6 +20,9 @@ pub mod verifylib;
 
 mod format_hex;
 
+#[cfg(feature = "verif-hooks")]
+pub mod verif_hooks;
+
 pub use crate::error::*;
 
 /// Alias for `Result<T, Error>`.
